@@ -42,8 +42,14 @@ def run(R, tier):
     for _ in range(2 if tier == 'quick' else 12):
         specs.append({'sig': [rng.choice((1, -1, 0)) for _ in range(4 if tier == 'quick' else 5)]})
     specs += [{'pqr': (2, 0, 1)}, {'pqr': (1, 1, 0)}, {'pqr': (3, 0, 1)}]
+    # custom bases (blade matrices built along the blade names; regression of the repaired finding F10)
+    specs += [{'fromname': '2DPGA'}, {'fromname': '3DPGA'}]
+    for _ in range(4 if tier == 'quick' else 40):
+        dd = rng.choice((2, 3, 3) if tier == 'quick' else (2, 3, 3, 4))
+        specs.append({'sig': [rng.choice((1, -1, 0)) for _ in range(dd)], 'basis': algs.random_basis(rng, dd)})
     for spec in specs:
         alg = algs.make_impl(spec)
+        BK = {'basis': 'custom' if algs.kind(spec) != 'default' else 'default'}
         d = alg.d
         ref, dfn = pool.ref(spec)
         desc = algs.describe(spec)
@@ -60,12 +66,12 @@ def run(R, tier):
             s = alg.signs[I, J]
             t = canon.index(I ^ J)
             if not np.array_equal(MB[i] @ MB[j], s * MB[t]):
-                viol('asmatrix-hom', f'M(e_{I}) M(e_{J}) != {s} M(e_{I ^ J}) in Algebra({desc})', {'basis': 'default'}, algebra=spec, I=I, J=J)
+                viol('asmatrix-hom', f'M(e_{I}) M(e_{J}) != {s} M(e_{I ^ J}) in Algebra({desc})', BK, algebra=spec, I=I, J=J)
                 break
         for i in range(len(canon)):
             col = MB[i][:, 0]
             if list(col) != [1 if r == i else 0 for r in range(len(canon))]:
-                viol('first-column', f'column 0 of M(e_{canon[i]}) is {list(col)} in Algebra({desc})', {'basis': 'default'}, algebra=spec)
+                viol('first-column', f'column 0 of M(e_{canon[i]}) is {list(col)} in Algebra({desc})', BK, algebra=spec)
                 break
         for _ in range(3):
             ka, _ = oc.random_keys(rng, alg, rng.choice(['sparse', 'grade', 'single', 'dense']))
@@ -81,27 +87,15 @@ def run(R, tier):
                 # an empty multivector's asmatrix() is the number 0 (the sum over no blades): equal to the zero matrix
                 return bool(np.all(np.asarray(a) == np.asarray(b)))
             if not mateq((mx * my).asmatrix(), Mx @ My):
-                viol('asmatrix-hom', f'(x*y).asmatrix() != x.asmatrix() @ y.asmatrix() for x={x}, y={y} in Algebra({desc})', {'basis': 'default'}, algebra=spec, x=x, y=y)
+                viol('asmatrix-hom', f'(x*y).asmatrix() != x.asmatrix() @ y.asmatrix() for x={x}, y={y} in Algebra({desc})', BK, algebra=spec, x=x, y=y)
             if not mateq((mx + my).asmatrix(), Mx + My):
-                viol('asmatrix-linear', f'(x+y).asmatrix() != sum for x={x}, y={y}', {'basis': 'default'}, algebra=spec, x=x, y=y)
+                viol('asmatrix-linear', f'(x+y).asmatrix() != sum for x={x}, y={y}', BK, algebra=spec, x=x, y=y)
             back = MultiVector.frommatrix(alg, Mx)
             if not oc.same_element(oc.observe(back), x):
-                viol('frommatrix', f'frommatrix(asmatrix(x)) = {oc.observe(back)} for x={x}', {'basis': 'default'}, algebra=spec, x=x)
+                viol('frommatrix', f'frommatrix(asmatrix(x)) = {oc.observe(back)} for x={x}', BK, algebra=spec, x=x)
             chk = (f'mat_eqb (asmatrix A {oc.mv_term(x)}) {mat_term(Mx)} && '
                    f'mv_eqb (frommatrix A {mat_term(Mx)}) {oc.mv_term(oc.observe(back))}')
             cases.append({'check': algs.with_alg(ref, chk), 'defs': [dfn], 'meta': {'spec': spec, 'obs': f'asmatrix/frommatrix of {x}'}})
-    # custom bases: the listed known finding F10, replayed deterministically, plus random custom bases
-    for spec in [{'fromname': '2DPGA'}, {'fromname': '3DPGA'}] + [{'sig': [rng.choice((1, -1, 0)) for _ in range(3)], 'basis': algs.random_basis(rng, 3)}
-                                                                    for _ in range(2 if tier == 'quick' else 30)]:
-        alg = algs.make_impl(spec)
-        canon = list(alg.canon2bin.values())
-        MB = alg.matrix_basis
-        R.case((algs.describe(spec), 'custom-hom'), True)
-        bad = [(I, J) for (i, I), (j, J) in itertools.product(enumerate(canon), repeat=2)
-               if not np.array_equal(MB[i] @ MB[j], alg.signs[I, J] * MB[canon.index(I ^ J)])]
-        if bad:
-            viol('asmatrix-hom', f'{len(bad)} of {len(canon) ** 2} blade pairs violate M(e_I) M(e_J) = s M(e_IJ) in Algebra({algs.describe(spec)}) (custom basis); first {bad[0]}',
-                 {'basis': 'custom'}, algebra=spec, first_pair=list(bad[0]))
     # expr_as_matrix (exploration): A . coefficients(x) = coefficients(y)
     forms = [('R >> x', lambda Rm, x: Rm >> x), ('R * x', lambda Rm, x: Rm * x), ('x * R', lambda Rm, x: x * Rm), ('R | x', lambda Rm, x: Rm | x),
              ('R ^ x', lambda Rm, x: Rm ^ x), ('x.hodge()', lambda Rm, x: x.hodge()), ('R.cp(x)', lambda Rm, x: Rm.cp(x)), ('~x + R*x', lambda Rm, x: ~x + Rm * x),
@@ -143,8 +137,11 @@ def run(R, tier):
                         viol('expr_as_matrix', f'A.x != y for {name} with an array-valued R (element {idx}): {lhs} vs {rhs}', expression=name, kind=kind)
                         break
             else:
-                Am = sympy.Matrix(A).subs(vals) if kind == 'symbolic' else sympy.Matrix(np.array(A).tolist())
-                lhs = list(Am * sympy.Matrix(xv))
+                if len(A) == 0:              # y stores no blade: A has no rows
+                    lhs = []
+                else:
+                    Am = sympy.Matrix(A).subs(vals) if kind == 'symbolic' else sympy.Matrix(np.array(A).tolist())
+                    lhs = list(Am * sympy.Matrix(xv))
                 rhs = [sympy.sympify(v).subs(vals) for v in y.values()]
                 if [sympy.nsimplify(a - b) for a, b in zip(lhs, rhs)] != [0] * len(rhs) or len(lhs) != len(rhs):
                     viol('expr_as_matrix', f'A.x != y for {name} with a {kind} R: {lhs} vs {rhs}', expression=name, kind=kind)
